@@ -2,8 +2,9 @@
 (* Bounded configurations of TxBuilder (C40): every staging state reachable *)
 (* with at most MaxOps builder calls.  `ops` (the calls made) is a history  *)
 (* variable hidden by VIEW, so TLC keeps one shortest call sequence per     *)
-(* distinct staging state; Emit prints it with the design's Build(st) as    *)
-(* the expected outcome (spec -> impl replay).                              *)
+(* distinct staging state; every transition explored from it prints the     *)
+(* extended call sequence with the design's Build(st') as the expected      *)
+(* outcome (spec -> impl replay).                                           *)
 EXTENDS TxBuilder, Json
 
 CONSTANTS MaxOps, Scenario
@@ -79,11 +80,14 @@ MCNext ==
        \/ \E x \in AuxPool \cup BadAux : Call([op |-> "add_auxiliary_data", x |-> x], AddAuxiliaryData(x))
        \/ AuxPool # {} /\ Call([op |-> "clear_auxiliary_data"], ClearAuxiliaryData)
        \/ \E k \in Only({"all", "witness"}, {"native", "plutus_v2"}) : Call([op |-> "add_language", kind |-> k], AddLanguage(k))
+    \* one vector per explored transition: the calls made and the outcome the design expects
+    /\ PrintT(<<"VEC", ToJson([ops |-> ops', expect |-> Build(st')])>>)
 
-View == <<st, n>>
+\* breadth-first search with one worker reaches every staging state first by a shortest
+\* call sequence; every builder call offered in that state is then a transition of its own
+View == st
 
 \* every MCNext step is a step of the specification
 RefinesSpec == [][Next]_st
 
-Emit == PrintT(<<"VEC", ToJson([ops |-> ops, expect |-> Build(st)])>>)
 =============================================================================
